@@ -959,4 +959,96 @@ example :
     w.pointer = 3 ∧ w.pool = [] ∧ w.U = c.U ∧ w.total = c.total ∧ curVer w "k" = none ∧ curVer c "k" = none ∧
     curVer w "j" = some (31, 0) ∧ curVer c "j" = some (31, 0) ∧ curVer wkS "k" = some (22, 0) := by decide
 
+-- ================================================================== re-admission of the pool, and `play`
+
+/-- `doTx` cannot tell a state from one it refines (same pool): same verdict, refining results, same pool -/
+theorem doTx_trefines (e : Env) (x r : St) (lh : Int) (i : Nat) (h : TRefines x r) (hp : x.pool = r.pool) :
+    (doTx e x lh i).2 = (doTx e r lh i).2 ∧ TRefines (doTx e x lh i).1 (doTx e r lh i).1 ∧
+    (doTx e x lh i).1.pool = (doTx e r lh i).1.pool := by
+  unfold doTx
+  rw [hp]
+  by_cases hc : r.pool.contains i = true
+  · rw [if_pos hc, if_pos hc]
+    exact ⟨rfl, h, hp⟩
+  · rw [if_neg hc, if_neg hc]
+    dsimp only
+    rw [admission_congrT x r lh (e.tx i) h.obs]
+    have hT : TRefines ({ applyTx x (e.tx i) with pool := r.pool ++ [i] } : St)
+        ({ applyTx r (e.tx i) with pool := r.pool ++ [i] } : St) :=
+      (applyTx_trefines x r (e.tx i) h).of_tables ⟨rfl, rfl, rfl, rfl⟩ ⟨rfl, rfl, rfl, rfl⟩
+    cases admitTx r lh (e.tx i) with
+    | ok => exact ⟨rfl, hT, rfl⟩
+    | _ => exact ⟨rfl, h, hp⟩
+
+theorem foldl_doTx_trefines (e : Env) (lh : Int) (l : List Nat) (x r : St) (h : TRefines x r) (hp : x.pool = r.pool) :
+    TRefines (l.foldl (fun st i => (doTx e st lh i).1) x) (l.foldl (fun st i => (doTx e st lh i).1) r) ∧
+    (l.foldl (fun st i => (doTx e st lh i).1) x).pool = (l.foldl (fun st i => (doTx e st lh i).1) r).pool := by
+  induction l generalizing x r with
+  | nil => exact ⟨h, hp⟩
+  | cons i rest ih =>
+    simp only [List.foldl_cons]
+    obtain ⟨_, h2, h3⟩ := doTx_trefines e x r lh i h hp
+    exact ih _ _ h2 h3
+
+/-- **the state after a successful walk is a function of the destination branch and the old pool**: under the
+hypotheses of `walk_refines`, the result refines — and has the pool of — the canonical state "`r`, the blocks of
+`todo` replayed, empty pool" with the old pool re-admitted on it, oldest first -/
+theorem walk_refines_full (e : Env) (s : St) (lh : Int) (dest : Nat) (r : St)
+    (hok : (walk e s lh dest false).2 = true) (hinv : KVInv e r)
+    (hchain : ChainValid e (undoTodo e s.pointer dest).1.reverse r)
+    (hpool : PoolValid e s.pool (replayChain e (undoTodo e s.pointer dest).1.reverse r))
+    (hs : TRefines s (applyPool e s.pool (replayChain e (undoTodo e s.pointer dest).1.reverse r))) :
+    TRefines (walk e s lh dest false).1
+      (s.pool.foldl (fun st i => (doTx e st lh i).1)
+        { replayChain e (undoTodo e s.pointer dest).2 r with pool := [] }) ∧
+    (walk e s lh dest false).1.pool =
+      (s.pool.foldl (fun st i => (doTx e st lh i).1)
+        { replayChain e (undoTodo e s.pointer dest).2 r with pool := [] }).pool := by
+  obtain ⟨s2, h1, h2, h3⟩ := walk_refines e s lh dest r hok hinv hchain hpool hs
+  rw [h3]
+  exact foldl_doTx_trefines e lh s.pool s2 _ (h1.of_tables ⟨rfl, rfl, rfl, rfl⟩ ⟨rfl, rfl, rfl, rfl⟩) h2
+
+/-- with an empty pool, a successful `play` (`PlayAndRepost`) is `todoBlock`: the block's transactions admitted one
+after the other on the evolving state -/
+theorem play_eq_todoBlock (e : Env) (s : St) (lh : Int) (b : Block) (hp : s.pool = [])
+    (hok : (play e s lh b).2 = .ok) : todoBlock e s lh b = some (play e s lh b).1 ∧ b.pre = some s.pointer := by
+  unfold play at hok ⊢
+  unfold todoBlock
+  by_cases h1 : b.pre ≠ some s.pointer
+  · simp [h1] at hok
+  · have hpre : b.pre = some s.pointer := by simpa using h1
+    refine ⟨?_, hpre⟩
+    simp only [h1, ↓reduceIte] at hok ⊢
+    by_cases h2 : blockHasDupInput e b.txs = true
+    · simp [h2] at hok
+    · simp only [h2, Bool.false_eq_true, ↓reduceIte] at hok ⊢
+      simp only [hp, List.filter_nil, List.length_nil, closure, List.reverse_nil, List.foldl_nil] at hok ⊢
+      cases hr : applyBlockTxs e lh b.prop [] b.txs s with
+      | none => simp [hr] at hok
+      | some p =>
+        obtain ⟨s2, res⟩ := p
+        have hres : res = .ok := by
+          cases res with
+          | ok => rfl
+          | _ => simp only [hr] at hok; cases hok
+        subst hres
+        have hq : s2.pool = [] := by
+          rw [applyBlockTxs_ok_eq e lh b.prop b.txs s s2 hr, (replayTxs_frame e b.prop b.txs s).2.2, hp]
+        simp only [hq]
+
+/-- **undoing exactly cancels playing** (empty pool): after a successful `play` of `b`, the non-pruning `undoBlock`
+refines the state before — pointer back at the old tip, irreversible height where `play` put it -/
+theorem undoBlock_play (e : Env) (s : St) (lh : Int) (b : Block) (hp : s.pool = [])
+    (hok : (play e s lh b).2 = .ok)
+    (hwf : ∀ i ∈ b.txs, TxWF e i) (hnd : b.txs.Nodup) (hfresh : ∀ i ∈ b.txs, ∀ o, lookup s.U (i, o) = none)
+    (hfz : FrozenAlong e b.prop b.txs s) (hinv : KVInv e s) :
+    Refines (undoBlock e (play e s lh b).1 b false) { s with irrev := nextIrrev e.window s.irrev b.height } := by
+  obtain ⟨h1, h2⟩ := play_eq_todoBlock e s lh b hp hok
+  have := undoBlock_todoBlock e s _ lh b h1 hwf hnd hfresh hfz hinv
+  rw [h2] at this
+  exact this
+
+example : (play blkEnv blkSt 0 blkB).2 = .ok ∧ blkSt.pool = [] ∧
+    (undoBlock blkEnv (play blkEnv blkSt 0 blkB).1 blkB false).U = blkSt.U := by decide
+
 end XV.C01
